@@ -58,7 +58,7 @@ class Check:
     rule = ('scenario = generated option project (top + subproject; string/boolean/integer/combo/array/feature options, a yielding '
             'option, built-ins and per-subproject built-in overrides) + a history of 2-12 lifecycle steps (setup, configure -D, '
             'configure -U, setup --reconfigure [-D], setup --wipe, option-file edits: add/remove/rename/narrow/widen/default/range) with '
-            'injected failures (invalid value, unknown option, armed error() in a build file, OSError at the k-th storage call); '
+            'injected failures (invalid value, unknown option, armed error() in a build file, a post-configuration script that fails after coredata.dat and cmd_line.txt were written, OSError at the k-th storage call); '
             'after every step the values a reconfiguration reports (get_option) and the set of project options it leaves in '
             'intro-buildoptions.json are compared with the reference model. Non-trivial: '
             '>=3 steps including >=1 state-changing step after the first setup, or an injected failure fired. Distinct by hash of '
@@ -104,6 +104,14 @@ class Check:
                 continue
             steps.append(st)
             self.model_step(m, work, st, assume_injected_fails=True)
+        # (extra stream, added late) some of the armed failures strike *late*: a post-configuration script fails after
+        # coredata.dat and cmd_line.txt were written; for the model it is the same failed step
+        rx = prng.derive(prng.base_seed(), 'c08-extra', tier, index)
+        if faulty and rx.random() < 0.6:
+            spec['late'] = True
+            for st in steps:
+                if st['op'] in ('reconfigure', 'wipe') and (st.get('fault') or {}).get('kind') == 'armed' and rx.random() < 0.6:
+                    st['fault'] = {'kind': 'armed-late'}
         return {'kind': 'c08', 'spec': spec, 'steps': steps, 'faulty': faulty}
 
     @staticmethod
@@ -243,7 +251,7 @@ class Check:
             return True
         fault = st.get('fault')
         forced_fail = False
-        if fault is not None and fault['kind'] in ('armed', 'armed-sub'):
+        if fault is not None and fault['kind'] in ('armed', 'armed-sub', 'armed-late'):
             forced_fail = True
         if fault is not None and fault['kind'] == 'ioerr':
             if observed_ok is None:
@@ -358,6 +366,8 @@ class Check:
                 if fault is not None:
                     if fault['kind'] == 'armed':
                         armed.append(os.path.join(sd, 'ARMED_FAILURE'))
+                    elif fault['kind'] == 'armed-late':
+                        armed.append(os.path.join(sd, 'ARMED_LATE'))
                     elif fault['kind'] == 'armed-sub':
                         armed.append(os.path.join(sd, 'subprojects', P.SUB, 'ARMED_FAILURE'))
                     elif fault['kind'] == 'ioerr':
